@@ -36,6 +36,10 @@ def stable_pass(tree):
   return [t for t in STABLE if t not in ok]
 
 
+class _Skip(Exception):
+  pass
+
+
 def main():
   ap = argparse.ArgumentParser()
   ap.add_argument("--tier", default="quick")
@@ -43,6 +47,7 @@ def main():
   ap.add_argument("--mutants", action="store_true")
   ap.add_argument("--jobs", default="16")
   ap.add_argument("--skip-tests", action="store_true")
+  ap.add_argument("--with-check", default=None, help="run this other property's check against the change instead of its own (recorded under other_checks)")
   a = ap.parse_args()
   items = []
   if a.mutants:
@@ -101,6 +106,15 @@ def main():
           r["demo_patched_rc"] = rc
         env = dict(os.environ, VERIF_REPO_ROOT=wt, VERIF_JOBS=a.jobs, VERIF_EVIDENCE_DIR=os.path.join(tmp, "evidence"))
         t0 = time.time()
+        if a.with_check:
+          rc, out = sh("./check %s %s" % (a.with_check, a.tier), cwd=ROOT, env=env)
+          viol = [l for l in out.splitlines() if l.startswith("VIOLATION")]
+          keys = [l.strip() for l in out.splitlines() if l.strip().startswith("key=")]
+          prev = results.get(key, {})
+          prev.setdefault("other_checks", {})[a.with_check] = {"status": "caught" if rc == 1 and viol else ("harness-error" if rc == 2 else "MISSED"), "keys": keys[:3]}
+          r = prev
+          results[key] = r
+          raise _Skip()
         rc, out = sh("./check %s %s" % (pid, a.tier), cwd=ROOT, env=env)
         r["check_rc"] = rc
         r["check_wall_s"] = round(time.time() - t0, 1)
@@ -113,6 +127,8 @@ def main():
           r["status"] = "not-a-break-on-this-head (demo passes with the patch)"
         if rc == 2:
           r["detail"] = out[-600:]
+      except _Skip:
+        pass
       finally:
         sh("git -C /repo worktree remove --force %s" % wt)
       results[key] = r
@@ -125,6 +141,8 @@ def main():
         m["property"] = pid
         m["what_was_run"] = ("tools/seeded_run.py: patch applied to a scratch worktree of /repo@%s; pinned suite (46 stable tests) run there; "
                              "demo.py run on the clean and the patched tree; `VERIF_REPO_ROOT=<worktree> ./check %s %s`" % (r.get("head"), pid, a.tier))
+        if r.get("other_checks"):
+          m["other_checks"] = r["other_checks"]
         m["confirmed"] = {"stable_tests_still_pass": r.get("stable_tests_missing") == [], "demo_clean_rc": r.get("demo_clean_rc"),
                           "demo_patched_rc": r.get("demo_patched_rc"), "check_status": r.get("status"), "check_keys": r.get("keys")}
         json.dump(m, open(meta, "w"), indent=1, sort_keys=True)
